@@ -232,6 +232,8 @@ def _run(pid, tier, seed, replay, nshards, build_arg, t0):
         "shards": nshards,
     }
     if ex_results is not None:
+        # every enumerated case is distinct by construction; its non-trivial ones are counted exactly by the enumerator
+        coverage["distinct_nontrivial"] += sum(int(r.get("nontrivial", 0)) for r in ex_results if r)
         coverage["exhaustive_parts"] = mod.exhaustive_summary(ex_results)
         coverage["exhaustive"] = bool(coverage["exhaustive_parts"].get("complete", False))
     evidence = {
@@ -254,7 +256,7 @@ def _run(pid, tier, seed, replay, nshards, build_arg, t0):
         print(line)
     print(
         "%s tier=%s seed=%d builds=%s evaluations=%d distinct_nontrivial=%d discarded=%d excluded_known=%d wall=%.1fs"
-        % (pid, tier, seed, ",".join(kinds), ev, len(nt), sum(discards.values()), sum(excl.values()), time.time() - t0)
+        % (pid, tier, seed, ",".join(kinds), ev, coverage["distinct_nontrivial"], sum(discards.values()), sum(excl.values()), time.time() - t0)
     )
     if floor_msgs:
         print("HARNESS-ERROR property=%s generator self-check: %s" % (pid, "; ".join(floor_msgs)))
